@@ -65,6 +65,7 @@ type sig struct {
 }
 
 type trans struct {
+	mayPanic bool // the function can panic: its value is an Option (none = panicked)
 	p      *pkgInfo
 	env    map[string]gty    // variables in scope
 	ren    map[string]string // Go name -> Lean name
@@ -372,7 +373,18 @@ func (t *trans) block(list []ast.Stmt, results []gty, tail func() string) string
 			if fn == "assert" || fn == "assertf" {
 				return rest() // assertions are not part of the translated value
 			}
+			if fn == "panic" {
+				return "none"
+			}
 		}
+	case *ast.IncDecStmt:
+		lhsName, lhsTy := t.lhs(s.X)
+		if lhsTy == "" {
+			panic("translate: ++/-- of an unknown variable")
+		}
+		op := map[token.Token]string{token.INC: "+", token.DEC: "-"}[s.Tok]
+		cur, _ := t.expr(s.X, lhsTy)
+		return fmt.Sprintf("let %s : %s := (%s %s %s)\n  %s", t.name(lhsName), leanTy(lhsTy), cur, op, lit(big.NewInt(1), lhsTy), rest())
 	}
 	panic(fmt.Sprintf("translate: unsupported statement %T", list[0]))
 }
@@ -418,7 +430,14 @@ func (t *trans) wrapState(res string, n int) string {
 	for _, f := range t.fieldOrder() {
 		fs = append(fs, t.name(t.recv+"_"+f))
 	}
-	return "(" + res + ", (" + strings.Join(fs, ", ") + "))"
+	out := "(" + res + ", (" + strings.Join(fs, ", ") + "))"
+	if n == 0 {
+		out = "(" + strings.Join(fs, ", ") + ")"
+	}
+	if t.mayPanic {
+		out = "(some " + out + ")"
+	}
+	return out
 }
 
 func (t *trans) fieldOrder() []string {
@@ -452,9 +471,20 @@ func (t *trans) function(key string, leanName string) string {
 	if d.Recv != nil {
 		t.recv = recvName(d)
 		st := t.p.structs[recvType(d)]
+		used := map[string]bool{}
+		ast.Inspect(d.Body, func(nd ast.Node) bool {
+			if se, ok := nd.(*ast.SelectorExpr); ok {
+				if id, ok := se.X.(*ast.Ident); ok && id.Name == t.recv {
+					used[se.Sel.Name] = true
+				}
+			}
+			return true
+		})
 		for _, f := range st.Fields.List {
 			for _, n := range f.Names {
-				t.fields[n.Name] = goTy(f.Type)
+				if used[n.Name] {
+					t.fields[n.Name] = goTy(f.Type) // only the fields the method touches are part of the state
+				}
 			}
 		}
 		for _, f := range t.fieldOrder() {
@@ -469,7 +499,11 @@ func (t *trans) function(key string, leanName string) string {
 			sg.params = append(sg.params, ty)
 		}
 	}
-	for _, f := range d.Type.Results.List {
+	var resList []*ast.Field
+	if d.Type.Results != nil {
+		resList = d.Type.Results.List
+	}
+	for _, f := range resList {
 		k := len(f.Names)
 		if k == 0 {
 			k = 1
@@ -478,14 +512,32 @@ func (t *trans) function(key string, leanName string) string {
 			sg.results = append(sg.results, goTy(f.Type))
 		}
 	}
-	body := t.block(d.Body.List, sg.results, nil)
+	t.mayPanic = false
+	ast.Inspect(d.Body, func(nd ast.Node) bool {
+		if c, ok := nd.(*ast.CallExpr); ok && exprText(t.p.fset, c.Fun) == "panic" {
+			t.mayPanic = true
+		}
+		return true
+	})
+	var tail func() string
+	if len(sg.results) == 0 {
+		tail = func() string { return t.wrapState("", 0) } // a method without results returns the new state
+	}
+	body := t.block(d.Body.List, sg.results, tail)
 	resTy := tupleTy(sg.results)
 	if t.recv != "" {
 		var fts []gty
 		for _, f := range t.fieldOrder() {
 			fts = append(fts, t.fields[f])
 		}
-		resTy = "(" + resTy + ") × (" + tupleTy(fts) + ")"
+		if len(sg.results) == 0 {
+			resTy = tupleTy(fts)
+		} else {
+			resTy = "(" + resTy + ") × (" + tupleTy(fts) + ")"
+		}
+		if t.mayPanic {
+			resTy = "Option (" + resTy + ")"
+		}
 	} else {
 		t.sigs[leanName] = sg
 		if leanName != key {
@@ -758,6 +810,8 @@ func emitTranslated(p *pkgInfo) (out string, err error) {
 	b.WriteString(t.function("ufloat64FromParts", "ufloat64FromParts"))
 	b.WriteString("\n")
 	b.WriteString(t.function("jsf64ctx.rand", "jsfRand"))
+	b.WriteString("\n")
+	b.WriteString(t.function("repeat.reject", "repeatReject"))
 	b.WriteString("\n")
 	// the variables of genUfloatRange: declared types, and the result types of the calls that define the others
 	vt := map[string]gty{
